@@ -85,7 +85,207 @@ def rw_merge(chk, repo):
            "the writer's variables have no place in the frame")
 
 
+def allocation_semantic(chk, repo, rule="R18.6"):
+    """the allocation of a sync group, by abstract execution
+    (sa/evalx.py) of SyncGroupBase.allocate - which runs every terminal's
+    allocate(), SterilePacket.append / append_writer / append_fmmu - on
+    groups of abstract terminals, checked against an independent
+    description of the frame: every region of every terminal lies in a
+    datagram that addresses exactly that terminal's sync manager (or its
+    slice of the FMMU window), with the right length, expected working
+    counter and write-enable record"""
+    import itertools
+    sg = repo.cls(C + "SyncGroupBase")
+    et = repo.cls(C + "EBPFTerminal")
+    alloc = sg.methods.get("allocate")
+    need(alloc is not None, "SyncGroupBase.allocate vanished")
+    chk.analysed(sg.qualname + ".allocate", et.qualname + ".allocate")
+    smc = repo.cls("ebpfcat.ethercat.SyncManager")
+    sm = Evaluator(repo, smc.module, smc).enum_members(smc)
+    IN, OUT = sm["IN"], sm["OUT"]
+    specs = {
+        "A": (1, True, 4, 0x1100, 2, 0x1000, True),
+        "B": (2, True, 0, None, 6, 0x1000, True),
+        "C": (3, False, 3, 0x1100, 5, 0x1000, True),
+        "D": (4, False, 2, 0x1180, 2, 0x1080, False),
+        "E": (5, True, 8, 0x1100, 4, 0x1000, False),
+        "F": (6, False, 0, None, 7, 0x1000, True),
+    }
+    groups = [list(p_) for p_ in itertools.permutations("ABCD")][::3] + [
+        list("ABCDEF"), list("FEDCBA"), list("ABE"), list("CDF"), ["C"],
+        ["A"], list("EB")]
+    LADDR = 0x40000
+    bad = []
+    rows = 0
+    for names in groups:
+        terms = {}
+        for nm in names:
+            pos, fm, isz, ioff, osz, ooff, rw = specs[nm]
+            terms[nm] = Obj(et, {"use_fmmu": fm, "pdo_in_sz": isz,
+                                 "pdo_in_off": ioff, "pdo_out_sz": osz,
+                                 "pdo_out_off": ooff, "position": pos})
+        me = Obj(sg, {"terminals": {terms[nm]: specs[nm][6]
+                                    for nm in names},
+                      "ec": Obj(None, {"get_fmmu_addr": (
+                          "hook", lambda: LADDR)})})
+        try:
+            Evaluator(repo, sg.module, sg).call_function(alloc, [me],
+                                                         cls=sg)
+        except (Unknown, Raised) as e:
+            raise AnalysisError(f"{sg.qualname}.allocate: cannot be "
+                                f"evaluated for terminals {names}: {e}")
+        rows += 1
+        tag = "terminals " + "".join(names)
+
+        def err(msg):
+            if len(bad) < 6:
+                bad.append(f"{tag}: {msg}")
+        pk = me.fields.get("packet")
+        pa = me.fields.get("pdo_assign")
+        fmaps = me.fields.get("fmmu_maps")
+        if not isinstance(pk, Obj) or not isinstance(pa, dict) or \
+                not isinstance(fmaps, dict):
+            err("allocate left no packet / pdo_assign / fmmu_maps")
+            continue
+        # independent decoding of the datagram list
+        dgs = []
+        pos = 16
+        for d in pk.fields.get("data", []):
+            cmd, data, wkc, idx, *addr = d
+            dgs.append({"cmd": cmd.name, "len": len(data), "addr": tuple(
+                addr), "cmdpos": pos, "start": pos + 10,
+                "wkcpos": pos + 10 + len(data), "end": pos + 12 + len(data),
+                "used": False, "idx": idx})
+            pos += 12 + len(data)
+        counters = pk.fields.get("counters", {})
+        fly = [(a, b, c.name) for a, b, c in pk.fields.get("on_the_fly", [])]
+
+        def find_dg(cmd, addr, length):
+            for g in dgs:
+                if not g["used"] and g["cmd"] == cmd and g["addr"] == addr \
+                        and g["len"] == length:
+                    g["used"] = True
+                    return g
+            return None
+        sum_in = sum(specs[n][2] for n in names if specs[n][1])
+        sum_out = sum(specs[n][4] for n in names
+                      if specs[n][1] and specs[n][6])
+        n_in = sum(1 for n in names if specs[n][1] and specs[n][2])
+        n_out = sum(1 for n in names
+                    if specs[n][1] and specs[n][6] and specs[n][4])
+        lrd = find_dg("LRD", (LADDR,), sum_in) if sum_in else None
+        if sum_in and lrd is None:
+            err(f"no LRD datagram of {sum_in} bytes at the group's logical "
+                f"address")
+        lwr = None
+        if sum_out:
+            cand = [g for g in dgs if g["cmd"] == "LWR" and not g["used"]]
+            if len(cand) == 1 and cand[0]["len"] == sum_out and len(
+                    cand[0]["addr"]) == 1:
+                lwr = cand[0]
+                lwr["used"] = True
+                lo = lwr["addr"][0]
+                if not (lo >= LADDR + sum_in or lo + sum_out <= LADDR):
+                    err(f"output window {lo:#x}+{sum_out} overlaps the "
+                        f"input window {LADDR:#x}+{sum_in}")
+            else:
+                err(f"no single LWR datagram of {sum_out} bytes")
+        cum_in = cum_out = 0
+        for nm in names:
+            pos_, fm, isz, ioff, osz, ooff, rw = specs[nm]
+            t = terms[nm]
+            got = pa.get(t, {})
+            gm = fmaps.get(t, {})
+            want_keys = set()
+            if isz:
+                want_keys.add(IN)
+            if rw and osz:
+                want_keys.add(OUT)
+            if set(got) != want_keys:
+                err(f"{nm}: regions {sorted(k.name for k in got)}, expected "
+                    f"{sorted(k.name for k in want_keys)}")
+                continue
+            if fm:
+                if isz and lrd is not None:
+                    if got[IN] != lrd["start"] + cum_in or gm.get(IN) != \
+                            LADDR + cum_in:
+                        err(f"{nm}: inputs at frame offset {got[IN]}, "
+                            f"logical {gm.get(IN)}; expected "
+                            f"{lrd['start'] + cum_in}, {LADDR + cum_in}")
+                if isz:
+                    cum_in += isz
+                if rw and osz and lwr is not None:
+                    if got[OUT] != lwr["start"] + cum_out or gm.get(OUT) != \
+                            lwr["addr"][0] + cum_out:
+                        err(f"{nm}: outputs at frame offset {got[OUT]}, "
+                            f"logical {gm.get(OUT)}; expected "
+                            f"{lwr['start'] + cum_out}, "
+                            f"{lwr['addr'][0] + cum_out}")
+                if rw and osz:
+                    cum_out += osz
+            else:
+                if gm:
+                    err(f"{nm}: a terminal without FMMU has logical "
+                        f"addresses {gm}")
+                if isz:
+                    g = find_dg("FPRD", (pos_, ioff), isz)
+                    if g is None:
+                        err(f"{nm}: no FPRD datagram ({pos_}, {ioff:#x}) of "
+                            f"{isz} bytes")
+                    elif got[IN] != g["start"]:
+                        err(f"{nm}: inputs at frame offset {got[IN]}, its "
+                            f"FPRD data starts at {g['start']}")
+                    elif counters.get(g["wkcpos"]) != 1:
+                        err(f"{nm}: FPRD expected count "
+                            f"{counters.get(g['wkcpos'])}")
+                if rw and osz:
+                    g = find_dg("FPWR", (pos_, ooff), osz)
+                    if g is None:
+                        err(f"{nm}: no FPWR datagram ({pos_}, {ooff:#x}) of "
+                            f"{osz} bytes")
+                    elif got[OUT] != g["start"]:
+                        err(f"{nm}: outputs at frame offset {got[OUT]}, "
+                            f"its FPWR data starts at {g['start']}")
+                    else:
+                        if counters.get(g["wkcpos"]) != 1:
+                            err(f"{nm}: FPWR expected count "
+                                f"{counters.get(g['wkcpos'])}")
+                        if (g["cmdpos"], g["end"], "FPWR") not in fly:
+                            err(f"{nm}: FPWR datagram is not recorded for "
+                                f"sterilising / re-enabling")
+        if lrd is not None and counters.get(lrd["wkcpos"]) != n_in:
+            err(f"LRD expects {counters.get(lrd['wkcpos'])} terminals, "
+                f"{n_in} map inputs")
+        if lwr is not None:
+            if counters.get(lwr["wkcpos"]) != n_out:
+                err(f"LWR expects {counters.get(lwr['wkcpos'])} terminals, "
+                    f"{n_out} map outputs")
+            if (lwr["cmdpos"], lwr["end"], "LWR") not in fly:
+                err("LWR datagram is not recorded for sterilising / "
+                    "re-enabling")
+        left = [g for g in dgs if not g["used"]]
+        if left:
+            err(f"datagrams nobody asked for: "
+                f"{[(g['cmd'], g['addr'], g['len']) for g in left]}")
+        if len(fly) != sum(1 for g in dgs if g["cmd"] in ("FPWR", "LWR")):
+            err(f"write-enable records {fly}")
+        if set(counters) != {g["wkcpos"] for g in dgs}:
+            err("expected working counters are not recorded for every "
+                "datagram")
+        if pk.fields.get("size") != (dgs[-1]["end"] if dgs else 16):
+            err(f"packet size {pk.fields.get('size')}")
+    chk.floor(rule, "terminal groups allocated and decoded", rows, 12)
+    chk.ob(rule, sg.qualname + ".allocate", "every region lies in the "
+           "datagram (or FMMU window slice) of its own terminal and sync "
+           "manager; lengths, logical windows, expected counters and "
+           "write-enable records agree with the frame", not bad, alloc,
+           "; ".join(bad[:3]) or f"{rows} groups of FMMU / direct, "
+           f"read-only / read-write, input-less / output-less terminals")
+
+
 def allocators(chk, repo):
+    chk.doc("R18.6", "allocation decoded independently")
+    allocation_semantic(chk, repo)
     impls = [ci for ci in repo.classes.values()
              if "allocate" in ci.methods and repo.is_subclass(
                  ci, C + "EBPFTerminal")]
